@@ -98,6 +98,9 @@ def _work(args):
     for run in runs:
         if time.time() > deadline:
             break
+        # watchdog per run (re-armed): a hang is a harness error, a slow
+        # machine is not
+        faulthandler.dump_traceback_later(900, exit=True)
         try:
             program, out = eng.generate(seed, run, tier)
         except HarnessError as e:
